@@ -55,6 +55,9 @@ def epub_bytes(chapters: list[tuple[str, str]], *, title="VF Book", creator="VF 
         for k in ("subject", "description", "publisher", "date", "rights", "contributor"):
             if props.get(k) is not None:
                 dc.append(f"<dc:{k}>{escape(props[k])}</dc:{k}>")
+        if props.get("_repeat_dc"):
+            # a package may repeat Dublin Core elements (subtitle, co-author, more subjects); the first one is the main one
+            dc = [x for e in dc for x in ([e, e[:e.index(">") + 1] + "second ZX0DC02" + e[e.rindex("</"):]] if e.startswith(("<dc:title", "<dc:creator", "<dc:subject", "<dc:description")) else [e])]
         items = []
         for i in manifest_order:
             href = chapters[i][0]
